@@ -98,8 +98,9 @@ Unary(op, x) ==
                           IF SubSeq(ix, 1, d) = SubSeq(ix, d + 1, 2*d) THEN At(DX, SubSeq(ix, 1, d)) ELSE GZero),
                        x.R, "must")
              [] op = "diag_extract" ->
-                  x.k = "ttm" /\ x.I = x.J
-                  /\ res' = ObjRes(TDiagExtract(X), DenseOf(x.I, LAMBDA ix : At(DX, ix \o ix)), x.R, "must")
+                  x.k = "ttm"
+                  /\ LET mn == [p \in 1..Len(x.I) |-> IF x.I[p] <= x.J[p] THEN x.I[p] ELSE x.J[p]] IN
+                     res' = ObjRes(TDiagExtract(X), DenseOf(mn, LAMBDA ix : At(DX, ix \o ix)), x.R, "must")
 
 \* scalar operations; the scalar-kind table (status) is part of the specification:
 \*   python int/float/bool, numpy float64, python zero : must work from either side
